@@ -492,10 +492,26 @@ func runLockScenario(sc lockScenario) lockResult {
 			in := insts[i]
 			for rd := 0; rd < sc.rounds; rd++ {
 				key := keys[rng.Intn(len(keys))]
+				lctx := ctx
+				impatient := sc.kind == "impatient-waiters" && i > 0
+				if impatient {
+					// a waiter that gives up: its context ends while another instance holds the lock
+					var lc context.CancelFunc
+					lctx, lc = context.WithTimeout(ctx, sc.ttl*time.Duration(15+rng.Intn(25))/100)
+					defer lc()
+				}
 				c := mono()
-				err := in.st.Lock(ctx, key)
-				addAPI(apiCall{"lock", i, key, c, mono(), errStr(err)})
+				err := in.st.Lock(lctx, key)
+				e := errStr(err)
+				if impatient && err != nil {
+					e = "gave-up: " + e
+				}
+				addAPI(apiCall{"lock", i, key, c, mono(), e})
 				if err != nil {
+					if impatient {
+						time.Sleep(time.Duration(rng.Intn(30)) * time.Millisecond)
+						continue
+					}
 					return
 				}
 				hold := sc.holdMin + time.Duration(rng.Int63n(int64(sc.holdMax-sc.holdMin)+1))
@@ -643,8 +659,14 @@ func judgeLocks(r *ev.Run, res lockResult) {
 	r.Count("kv_renewals_failed", int64(renewFail))
 	r.Count("kv_lease_calls", int64(len(res.kv)))
 	locks := []apiCall{}
+	gaveUp := 0
+	defer func() { r.Count("lock_calls_that_gave_up_when_their_context_ended", int64(gaveUp)) }()
 	for _, a := range res.api {
 		if a.Op == "lock" {
+			if strings.HasPrefix(a.Err, "gave-up: ") {
+				gaveUp++
+				continue // a waiter whose context ended: it reported failure and holds nothing
+			}
 			if a.Err != "" {
 				r.Inconclusive(fmt.Sprintf("%s: Lock failed: %s", caseName, a.Err))
 				return
@@ -738,7 +760,7 @@ func partB(r *ev.Run) {
 	var scs []lockScenario
 	for i := 0; i < n; i++ {
 		sc := lockScenario{id: i, nInst: 2 + rng.Intn(3), ttl: time.Second, rounds: 2, seed: rng.Int63()}
-		sc.kind = []string{"handoff", "handoff", "lost-renewals", "two-keys"}[i%4]
+		sc.kind = []string{"handoff", "impatient-waiters", "lost-renewals", "two-keys", "handoff"}[i%5]
 		if i%5 == 4 {
 			sc.ttl = 2 * time.Second
 		}
@@ -774,7 +796,7 @@ func partB(r *ev.Run) {
 func main() {
 	r := ev.Start("C49", "exploration")
 	r.SetMaxSamples(6)
-	r.SetRule("files: per scenario (1-3 storage instances over one real single-node chord ring on kv/memory) a seeded history of Store/Delete/Load+Exists+Stat/List over keys of 0-3 directory segments dNN and a file segment fNN.pem, one in four through a bNN segment that is itself stored and/or has a file below it (a child that is both a stored key and a parent), non-empty values, distinct by (operation, overwrite / key state stored|deleted|never, depth, number of file / directory / file-and-directory children, trailing slash); locks: scenarios {handoff, lost-renewals (a holder's renewals fail while it keeps holding), two-keys} x 2-4 instances x lease TTL {1s,2s}, each instance locking, holding 0.3-0.9 TTL and unlocking in rounds, distinct by (kind, instances, ttl, contention observed, takeover after possible expiry observed); every renewal issued and answered inside the holder's own certainly-valid lease must be granted")
+	r.SetRule("files: per scenario (1-3 storage instances over one real single-node chord ring on kv/memory) a seeded history of Store/Delete/Load+Exists+Stat/List over keys of 0-3 directory segments dNN and a file segment fNN.pem, one in four through a bNN segment that is itself stored and/or has a file below it (a child that is both a stored key and a parent), non-empty values, distinct by (operation, overwrite / key state stored|deleted|never, depth, number of file / directory / file-and-directory children, trailing slash); locks: scenarios {handoff, impatient-waiters (waiters whose context ends after 0.15-0.4 TTL while another instance holds the lock: a Lock that returns success must still be backed by its own acquisition), lost-renewals (a holder's renewals fail while it keeps holding), two-keys} x 2-4 instances x lease TTL {1s,2s}, each instance locking, holding 0.3-0.9 TTL and unlocking in rounds, distinct by (kind, instances, ttl, contention observed, takeover after possible expiry observed); every renewal issued and answered inside the holder's own certainly-valid lease must be granted")
 	r.Assume("segments of one kind have equal length (siblings that are string prefixes of each other are outside the statement), values are non-empty; a key that is both stored and the parent of deeper keys is judged only as a child in its parent's non-recursive listing (exactly once); Load/Exists/Stat of such a key and listing it as the prefix are not judged; a missing directory may list empty or fail with fs.ErrNotExist")
 	r.Assume("lock oracle: instance A certainly holds during [x,y] iff its Lock returned before x, its Unlock was not called by y and the windows [return_i, call_i + floor_seconds(ttl)) of its successful Acquire/Renew calls cover [x,y]; anything else (over-slept or failed renewal) counts as 'lease may have expired' and is not judged")
 	r.Assume("the DHT is a single-node ring (no remote hops, no ownership change during the history)")
